@@ -36,6 +36,20 @@ class HarnessError(Exception):
     """The machinery itself failed (never reported as a VIOLATION)."""
 
 
+def raised_in_harness(exc) -> bool:
+    """True if the innermost frame of the exception lies in /verif: the simulator's own code
+    tripped (e.g. over an attribute a refactoring renamed), which must never count as a violation."""
+    tb = exc.__traceback__
+    last = None
+    while tb is not None:
+        last = tb
+        tb = tb.tb_next
+    if last is None:
+        return False
+    fn = os.path.abspath(last.tb_frame.f_code.co_filename)
+    return fn.startswith(VERIF + os.sep)
+
+
 # --------------------------------------------------------------------------
 # seeds
 # --------------------------------------------------------------------------
